@@ -17,6 +17,16 @@ def main():
     repo = os.environ.get("VERIF_REPO", "/repo")
     sys.path.insert(0, repo)
     sys.dont_write_bytecode = True
+    tzname = (d.get("cfg") or {}).get("tzname")
+    if tzname == "<from-model>":
+        q = int(Fraction(d["inputs"].get("tz_off1_quarters", "0")))
+        mins = q * 15
+        tzname = "<LOC>%s%d:%02d" % ("-" if mins >= 0 else "+", abs(mins) // 60, abs(mins) % 60)  # POSIX sign is inverted
+    if tzname:
+        import time as _time
+
+        os.environ["TZ"] = tzname  # before labella is imported: import-time uses of the local zone count too
+        _time.tzset()
     import labella
 
     assert os.path.realpath(os.path.dirname(labella.__file__)) == os.path.realpath(os.path.join(repo, "labella")), labella.__file__
